@@ -84,6 +84,8 @@ def plan(tier, seed):
             for i in range(3)]
   specs += [{'shard': 'hashlen-%d' % i, 'n': 10 if q else 50, 'weight': 4}
             for i in range(4)]
+  specs += [{'shard': 'twoissuers-%d' % i, 'n': 3 if q else 12, 'weight': 6}
+            for i in range(4)]
   specs += [{'shard': 'u2f-%d' % i, 'n': 12 if q else 60} for i in range(2)]
   specs += [{'shard': 'gmp-%d' % i, 'part': i, 'parts': 4,
              'reps': 3 if q else 12, 'weight': 2} for i in range(4)]
@@ -220,6 +222,55 @@ def run_window(ctx, spec):
       ctx.count(('hit:' if hit else 'miss:') + reg)
 
 
+def run_twoissuers(ctx, spec):
+  """Two biased issuers on the same curve in one batch: an easy one first
+  (32-bit bias, one window) and one whose bias only shows in the 48/120
+  windows (16..20 biased bits on a 384/521-bit curve).  Every issuer must be
+  judged with all windows whatever happened to its neighbours."""
+  from paranoid_crypto.lib import ecdsa_sig_checks as sc
+  rng = ctx.rng('two')
+  checks = {k: getattr(sc, v[0])() for k, v in KINDS.items()}
+  for i in range(spec['n']):
+    if not ctx.want('t%d' % i):
+      continue
+    cclass = ['384', '512'][i % 2]
+    curve = rng.choice(CLASS_CURVES[cclass])
+    n = gen.model_curve(curve).n
+    bits = n.bit_length()
+    kind = ['msb', 'prefix', 'postfix'][i % 3]
+    dA, pubA = sigs.issuer(rng, curve)
+    dB, pubB = sigs.issuer(rng, curve)
+    easy = sigs.sign_many(rng, curve, dA, pubA, KINDS[kind][1](
+        rng, n, 48, math.ceil(2.4 * 2 * bits / 48)))
+    wB = rng.choice([16, 20])
+    hard = sigs.sign_many(rng, curve, dB, pubB, KINDS[kind][1](
+        rng, n, wB, math.ceil(2.2 * 2 * bits / wB)))
+    dC, pubC = sigs.issuer(rng, curve)
+    other = sigs.sign_many(rng, curve, dC, pubC, sigs.nonces_uniform(rng, n, 3))
+    order = [easy, hard, other] if i % 4 < 3 else [hard, easy, other]
+    arts = [s_ for grp in order for s_ in grp]
+    name = KINDS[kind][0]
+    try:
+      checks[kind].Check(arts)
+    except Exception as e:  # pylint: disable=broad-except
+      ctx.violation('check-raised-%s@%s' % (type(e).__name__, name), repr(e),
+                    None)
+      continue
+    for who, grp, d in (('easy', easy, dA), ('hard', hard, dB)):
+      reg = 'two-biased-issuers/%s' % who
+      hit = _judge(ctx, grp + other, ['A'] * len(grp) + ['B'] * len(other),
+                   name, d, n, reg)
+      ctx.count('evaluations')
+      ctx.distinct(reg, d)
+      ctx.count('tried:' + reg)
+      ctx.count(('hit:' if hit else 'miss:') + reg)
+  try:
+    ctx.sample({'regime': 'two-biased-issuers', 'curve': curve, 'kind': kind,
+                'hard_width': wB})
+  except NameError:
+    pass
+
+
 def run_hashlen(ctx, spec):
   """Digests shorter than, equal to and longer than the order (also longer
   than its byte encoding), comfortably inside the margin."""
@@ -323,6 +374,7 @@ def run(ctx, spec):
   s = spec['shard']
   for prefix, fn in (('bias', run_bias), ('window', run_window),
                      ('hashlen', run_hashlen),
+                     ('twoissuers', run_twoissuers),
                      ('u2f', run_u2f), ('gmp', run_gmp)):
     if s.startswith(prefix):
       return fn(ctx, spec)
@@ -340,7 +392,8 @@ def finalize(agg, tier):
     reg = k[6:]
     n, miss = c[k], c.get('miss:' + reg, 0)
     status = regs.get(reg, {}).get('status', 'unmapped')
-    if reg.startswith(('u2f/', 'window-straddle/', 'hash-')) or \
+    if reg.startswith(('u2f/', 'window-straddle/', 'hash-',
+                       'two-biased-issuers/')) or \
         reg == 'gmp-lcg':
       status = regs.get(reg, {}).get('status', 'enforced')
     if reg.startswith('gmp-lcg/'):
